@@ -81,6 +81,21 @@ func (e *Engine) functionsFor(p string) []string {
 			out = append(out, k)
 		}
 	}
+	for _, k := range e.spec.BodyOrder {
+		con := e.spec.Bodies[k]
+		if _, ok := e.funcs[k]; !ok {
+			continue
+		}
+		rel := hasTag(con.Props, p)
+		for _, cl := range con.Clauses {
+			if hasTag(cl.Tags, p) {
+				rel = true
+			}
+		}
+		if rel {
+			out = append(out, "body:"+k)
+		}
+	}
 	return out
 }
 
@@ -135,12 +150,17 @@ func cmdVerify(args []string) {
 				keys = append(keys, k)
 			}
 		}
+		for _, k := range e.spec.BodyOrder {
+			if _, ok := e.funcs[k]; ok {
+				keys = append(keys, "body:"+k)
+			}
+		}
 	}
 	lemmas := e.translateFacts()
 	var obls []*Obligation
 	var ctxs []*FuncCtx
 	for _, k := range keys {
-		c := e.verifyFunc(k)
+		c := e.verifyKey(k)
 		ctxs = append(ctxs, c)
 		if c.limit != "" {
 			fmt.Printf("ENGINE-LIMIT %s: %s\n", k, c.limit)
@@ -300,7 +320,7 @@ func cmdSweep(args []string) {
 		hdr := "func " + k + "()"
 		con := &Contract{Key: k, Header: hdr, Decl: e.funcs[k], Sweep: true}
 		e.spec.Contracts[k] = con
-		c := e.verifyFunc(k)
+		c := e.verifyKey(k)
 		if saved != nil {
 			e.spec.Contracts[k] = saved
 		} else {
